@@ -21,6 +21,7 @@ import (
 	"math/rand"
 	"os"
 	"path/filepath"
+	"regexp"
 	"sort"
 	"strconv"
 	"strings"
@@ -83,6 +84,93 @@ func c15EquivWorkloads(repo string, seed int64, nrand int) []*snapWorkload {
 				if !seen[cc] {
 					seen[cc] = true
 					add(cc, []string{a1, a2})
+				}
+			}
+		}
+	}
+	// rate keys a regime may still understand although it no longer lists them (legacy spellings that a migration
+	// rewrites): every `a+b` of the rate keys any regime defines, on every regime
+	allKeys := map[string]bool{}
+	for _, r := range regs {
+		for _, c := range r.Categories {
+			for _, rt := range c.Rates {
+				for _, part := range strings.Split(rt.Key.String(), "+") {
+					allKeys[part] = true
+				}
+			}
+		}
+	}
+	var keyList []string
+	for k := range allKeys {
+		keyList = append(keyList, k)
+	}
+	sort.Strings(keyList)
+	litRe := regexp.MustCompile(`"([a-z][a-z0-9]*(?:-[a-z0-9]+)*)"`)
+	for _, r := range regs {
+		if len(r.Categories) == 0 {
+			continue
+		}
+		cat := r.Categories[0].Code.String()
+		// ... and the key-like literals of the regime's own Go files (keys only its migrations still know)
+		own := map[string]bool{}
+		files, _ := filepath.Glob(filepath.Join(repo, "regimes", strings.ToLower(r.Country.String()), "*.go"))
+		if r.Country.String() == "EL" {
+			files, _ = filepath.Glob(filepath.Join(repo, "regimes", "gr", "*.go"))
+		}
+		for _, f := range files {
+			if strings.HasSuffix(f, "_test.go") {
+				continue
+			}
+			b, err := os.ReadFile(f)
+			if err != nil {
+				continue
+			}
+			for _, m := range litRe.FindAllStringSubmatch(string(b), -1) {
+				if len(m[1]) >= 3 && len(m[1]) <= 30 {
+					own[m[1]] = true
+				}
+			}
+		}
+		parts := append([]string{}, keyList...)
+		for k := range own {
+			if !allKeys[k] {
+				parts = append(parts, k)
+			}
+		}
+		sort.Strings(parts)
+		for _, a := range []string{"exempt", "standard", "reduced", "zero"} {
+			for _, b := range parts {
+				if a == b {
+					continue
+				}
+				key := a + "+" + b
+				raw := syntheticInvoice(r, []string{})
+				first := ""
+				if len(r.Categories[0].Rates) > 0 {
+					first = r.Categories[0].Rates[0].Key.String()
+				}
+				if first == "" {
+					continue
+				}
+				raw2 := []byte(strings.Replace(string(raw), `"cat":"`+cat+`","rate":"`+first+`"`, `"cat":"`+cat+`","rate":"`+key+`"`, 1))
+				ws = append(ws, &snapWorkload{Name: "synthetic:" + r.Country.String() + ":rate=" + key, Regime: r.Country.String(), Addons: []string{},
+					Doc: "synthetic", data: raw2})
+				// the same under each addon of the regime's own country, and with the combo marked for another country
+				for _, ad := range addonKeys {
+					hm := home(ad)
+					if len(hm) != 1 || hm[0] != r.Country.String() {
+						continue
+					}
+					rawA := syntheticInvoice(r, []string{ad})
+					for ci, cc := range []string{"", "ES", "FR"} {
+						repl := `"cat":"` + cat + `","rate":"` + key + `"`
+						if cc != "" {
+							repl = `"cat":"` + cat + `","country":"` + cc + `","rate":"` + key + `"`
+						}
+						raw3 := []byte(strings.Replace(string(rawA), `"cat":"`+cat+`","rate":"`+first+`"`, repl, 1))
+						ws = append(ws, &snapWorkload{Name: fmt.Sprintf("synthetic:%s+%s:rate=%s:c%d", r.Country.String(), ad, key, ci), Regime: r.Country.String(),
+							Addons: []string{ad}, Doc: "synthetic", data: raw3})
+					}
 				}
 			}
 		}
